@@ -361,7 +361,10 @@ func (p *Prog) mayBeNilErr(v ssa.Value, b *ssa.BasicBlock, depth int) bool {
 				return false // package-level sentinel error
 			}
 			if a, ok := x.X.(*ssa.Alloc); ok {
-				// named result / local spilled: consult stores
+				// named result / local spilled (defer): consult the store that reaches this load
+				if s := reachingStore(a, x); s != nil {
+					return p.mayBeNilErr(s.Val, s.Block(), depth+1)
+				}
 				stores := storesTo(a)
 				if len(stores) == 0 {
 					return true
@@ -383,6 +386,24 @@ func (p *Prog) mayBeNilErr(v ssa.Value, b *ssa.BasicBlock, depth int) bool {
 	}
 	if p.nonNilAt(v, b) {
 		return false
+	}
+	// v == <package-level sentinel> known true at b
+	if refs := v.Referrers(); refs != nil {
+		for _, r := range *refs {
+			bo, ok := r.(*ssa.BinOp)
+			if !ok || bo.Op != token.EQL {
+				continue
+			}
+			other := bo.X
+			if other == v {
+				other = bo.Y
+			}
+			if u, ok := other.(*ssa.UnOp); ok && u.Op == token.MUL {
+				if _, isG := u.X.(*ssa.Global); isG && p.condAt(bo, true, b) {
+					return false
+				}
+			}
+		}
 	}
 	return true
 }
@@ -981,9 +1002,108 @@ func (p *Prog) nilErrReturns(f *ssa.Function) []*ssa.Return {
 	ei := errIndex(f)
 	var out []*ssa.Return
 	for _, r := range returnsOf(f) {
+		if r.Block() == f.Recover {
+			continue // reachable only after a recovered panic
+		}
 		if ei < 0 || p.mayBeNilErr(r.Results[ei], r.Block(), 0) {
 			out = append(out, r)
 		}
 	}
 	return out
+}
+
+// ---------------------------------------------------------------------------
+// value resolution
+
+// resolve strips loads of locals (taking the store that reaches the use), interface boxing and type changes.
+func resolve(v ssa.Value, at ssa.Instruction) ssa.Value {
+	for i := 0; i < 30; i++ {
+		switch x := v.(type) {
+		case *ssa.UnOp:
+			if x.Op != token.MUL {
+				return v
+			}
+			if a, ok := x.X.(*ssa.Alloc); ok {
+				s := reachingStore(a, x)
+				if s == nil {
+					return v
+				}
+				v = s.Val
+				continue
+			}
+			return v
+		case *ssa.Alloc:
+			if at == nil {
+				return v
+			}
+			s := reachingStore(x, at)
+			if s == nil {
+				return v
+			}
+			v = s.Val
+			at = s
+		case *ssa.MakeInterface:
+			v = x.X
+		case *ssa.ChangeInterface:
+			v = x.X
+		case *ssa.ChangeType:
+			v = x.X
+		default:
+			return v
+		}
+	}
+	return v
+}
+
+// producer returns the call (and result index) that produced v, looking through locals and boxing.
+func producer(v ssa.Value, at ssa.Instruction) (ssa.CallInstruction, int) {
+	v = resolve(v, at)
+	switch x := v.(type) {
+	case *ssa.Call:
+		return x, 0
+	case *ssa.Extract:
+		if c, ok := x.Tuple.(*ssa.Call); ok {
+			return c, x.Index
+		}
+	}
+	return nil, -1
+}
+
+// isResultOf reports whether v is result idx of a call to one of the named callees.
+func isResultOf(v ssa.Value, at ssa.Instruction, idx int, names ...string) (ssa.CallInstruction, bool) {
+	c, i := producer(v, at)
+	if c == nil || i != idx {
+		return nil, false
+	}
+	n := calleeName(c)
+	for _, x := range names {
+		if x == n {
+			return c, true
+		}
+	}
+	return nil, false
+}
+
+// callArgs returns the receiver (for invoke) followed by the arguments.
+func callArgs(c ssa.CallInstruction) []ssa.Value {
+	cc := c.Common()
+	var out []ssa.Value
+	if cc.IsInvoke() {
+		out = append(out, cc.Value)
+	}
+	return append(out, cc.Args...)
+}
+
+// blockHasFactOK: all guard calls' success holds at the instruction.
+func instrPos(in ssa.Instruction) token.Pos {
+	if in.Pos().IsValid() {
+		return in.Pos()
+	}
+	// fall back to any positioned instruction in the block
+	for _, x := range in.Block().Instrs {
+		if x.Pos().IsValid() {
+			return x.Pos()
+		}
+	}
+	return in.Parent().Pos()
 }
